@@ -272,6 +272,8 @@ fn deviation_decided() -> impl Strategy<Value = Deviation> {
         2 => Just(LeafNoNodeId),
         2 => Just(LeafNoFabricId),
         2 => Just(LeafOtherFabric),
+        6 => any::<bool>().prop_map(|root_names_a| ConsistentForeignFabric { root_names_a }),
+        3 => Just(IcacForeignFabric),
         1 => Just(SwapLeafAndIca),
         1 => Just(SwapIcaAndRoot),
         1 => Just(RepeatLeaf),
@@ -706,7 +708,11 @@ fn remember(fc: &ForgedChain) {
 fn describe(c: &C19Case) -> String {
     format!(
         "shape={} time={:?} deviations={:?}",
-        if c.p.with_icac { "RCAC->ICAC->NOC" } else { "RCAC->NOC" },
+        if c.devs.iter().fold(c.p.with_icac, |w, d| d.forces_icac().unwrap_or(w)) {
+            "RCAC->ICAC->NOC"
+        } else {
+            "RCAC->NOC"
+        },
         c.p.time,
         c.devs
     ) + &PRESENTED.with(|p| format!("; presented: {}", p.borrow()))
